@@ -258,8 +258,8 @@ func runDriver(d *Driver, p *ProcSpec, scriptPath, tracePath string, timeout tim
 		env = append(env, "CI=true")
 	case "GITHUB_ACTIONS":
 		env = append(env, "GITHUB_ACTIONS=true")
-	case "CI=false":
-		env = append(env, "CI=false")
+	case "CI=false": // explicit opt-out wins over a vendor variable
+		env = append(env, "CI=false", "GITHUB_ACTIONS=true")
 	}
 	if p.UpdVar != nil {
 		env = append(env, "UPDATE_SNAPS="+*p.UpdVar)
